@@ -4,6 +4,7 @@ import (
 	"encoding/json"
 	"flag"
 	"fmt"
+	"bytes"
 	"os"
 	"path/filepath"
 	"runtime"
@@ -153,6 +154,7 @@ func loadProgram(repo, verif string, spec *CheckSpec) (*Loaded, error) {
 	}
 	prog, _ := ssautil.AllPackages(pkgs, ssa.InstantiateGenerics)
 	prog.Build()
+	yieldBeforeRelease = sourceUsesTryLock(repo)
 	l := &Loaded{prog: prog, pkgs: map[string]*ssa.Package{}}
 	for _, p := range prog.AllPackages() {
 		l.pkgs[p.Pkg.Path()] = p
@@ -592,4 +594,34 @@ func cmdRun(args []string) int {
 	loadS := time.Since(t0).Seconds()
 	defer pprof.StopCPUProfile()
 	return runSpec(l, &spec, *tier, *only, *workers, extra, *out, *verif, *repo, loadS)
+}
+
+// yieldBeforeRelease: the scheduler normally has no scheduling point before a mutex release (a switch there
+// commutes with a switch before the acquire as long as other goroutines can only block on the mutex). That
+// reduction is unsound once somebody can observe "held" without blocking, so it is switched off when the
+// tree under analysis calls TryLock / TryRLock anywhere outside its tests.
+var yieldBeforeRelease bool
+
+func sourceUsesTryLock(repo string) bool {
+	found := false
+	_ = filepath.WalkDir(repo, func(path string, d os.DirEntry, err error) error {
+		if err != nil || found {
+			return nil
+		}
+		if d.IsDir() {
+			if n := d.Name(); n == ".git" || n == "vendor" || n == "e2e" || n == "testdata" {
+				return filepath.SkipDir
+			}
+			return nil
+		}
+		if !strings.HasSuffix(path, ".go") || strings.HasSuffix(path, "_test.go") {
+			return nil
+		}
+		b, err := os.ReadFile(path)
+		if err == nil && (bytes.Contains(b, []byte(".TryLock(")) || bytes.Contains(b, []byte(".TryRLock("))) {
+			found = true
+		}
+		return nil
+	})
+	return found
 }
